@@ -32,6 +32,15 @@ ASSUMPTIONS = [
     "values are not compared with NumPy here (that is C19-C24/C26/C27); only self-consistency of lazy metadata, blocks and the full result",
     "the first step at which a clause fails is reported (signature = that step's operation)",
     "0-d results have exactly one block with index ()",
+    "two low-probability strata get a reduced menu of steps (elementwise, basic indexing, transpose/flip, concatenate/stack with itself, "
+    "map_blocks, sum/any/mean): pipelines whose first input has explicit zero-size chunks (~6 %) and zero-length intermediate results; the "
+    "other operations' own failures on such arrays are explored and listed per operation under C19-C24/C26/C27 and are not re-explored here; "
+    "further inputs and rechunk targets carry no explicit zero-size chunks. Zero-size chunks that ordinary steps leave behind (strided "
+    "slices) do flow through the full menu and are flagged in the signature (zero_chunk_in, len1_axis_zero_chunk)",
+    "an integer and a list in one index are not mixed (integers become length-1 slices then): NumPy moves the advanced dimension first when "
+    "they are not adjacent, dask does not (listed under C20), and the generator tracks shapes with NumPy",
+    "a violation that concerns only the value obtained through the .blocks route is reported after the remaining steps have been verified "
+    "with the to_delayed value, so that it does not end the pipeline at the first 0-d intermediate result",
 ]
 TECHNIQUE = "Hypothesis-generated typed operation pipelines plus exhaustive chunkings of small shapes; metamorphic check of per-block results against declared chunks and the full result"
 
@@ -171,8 +180,11 @@ def block_indices(numblocks, limit, seed):
     return idxs, True
 
 
-def verify(r, what, sig, seed=0, allow_unknown=False, max_blocks=24):
-    """All clauses of C25 for one lazy array r."""
+def verify(r, what, sig, seed=0, allow_unknown=False, max_blocks=24, deferred=None):
+    """All clauses of C25 for one lazy array r.  A violation that concerns only the value obtained through the .blocks route is
+    appended to ``deferred`` (when given) instead of being raised, and the remaining clauses go on with the to_delayed value, so
+    that one defect of that route (listed: blocks-of-0d-array) does not end the pipeline at its first 0-d intermediate result;
+    check() raises the first deferred violation once all steps have been verified."""
     import dask.array as da
 
     ensure(isinstance(r, da.Array), f"{what}: result is {type(r).__name__}", "not-a-dask-array", **sig)
@@ -211,11 +223,18 @@ def verify(r, what, sig, seed=0, allow_unknown=False, max_blocks=24):
         with impl(f"block {idx} via blocks", **bsig):
             b1 = A.compute(r.blocks[idx])
         for route, b, rsig in (("to_delayed", b2, dsig), ("blocks", b1, bsig)):
-            ensure(hasattr(b, "shape") and hasattr(b, "dtype"), f"{what}: block {idx} via {route} computed to {type(b).__name__} {b!r:.80}", "block-not-an-array", **rsig)
-            ensure(tuple(b.shape) == want, f"{what}: block {idx} via {route} has shape {tuple(b.shape)}, chunks {r.chunks} declare {want}", "block-shape-mismatch", **rsig)
-            ensure(b.dtype == r.dtype, f"{what}: block {idx} via {route} has dtype {b.dtype}, lazy dtype {r.dtype}", "block-dtype-mismatch", **rsig)
-        blocks[idx] = np.asarray(b1)
-        ensure(_eq(np.asarray(b2), blocks[idx]), f"{what}: block {idx} differs between .blocks and to_delayed()", "block-routes-differ", **dsig)
+            try:
+                ensure(hasattr(b, "shape") and hasattr(b, "dtype"), f"{what}: block {idx} via {route} computed to {type(b).__name__} {b!r:.80}", "block-not-an-array", **rsig)
+                ensure(tuple(b.shape) == want, f"{what}: block {idx} via {route} has shape {tuple(b.shape)}, chunks {r.chunks} declare {want}", "block-shape-mismatch", **rsig)
+                ensure(b.dtype == r.dtype, f"{what}: block {idx} via {route} has dtype {b.dtype}, lazy dtype {r.dtype}", "block-dtype-mismatch", **rsig)
+            except Violation as v:
+                if route != "blocks" or deferred is None:
+                    raise
+                deferred.append(v)
+                b1 = None
+        blocks[idx] = np.asarray(b2 if b1 is None else b1)
+        if b1 is not None:
+            ensure(_eq(np.asarray(b2), blocks[idx]), f"{what}: block {idx} differs between .blocks and to_delayed()", "block-routes-differ", **dsig)
     sl = C.block_slices(r.chunks)
     for idx in idxs:
         ensure(_eq(full[sl[idx]], blocks[idx]), f"{what}: block {idx} {blocks[idx]!r:.120} is not the corresponding part {full[sl[idx]]!r:.120} of the full result (chunks {r.chunks})", "blocks-do-not-reassemble", **sig)
@@ -243,6 +262,7 @@ def check(case):
     sig0 = dict(op="from_array", zero_chunk=zc, empty=empty)
     verify(r, "input", sig0, seed=case["inputs"][0].get("seed", 0))
     allow_unknown = False
+    deferred = []
     done = []
     for k, s in enumerate(case["steps"]):
         # a zero-length axis in an input or in the array this step is applied to / produces
@@ -268,7 +288,9 @@ def check(case):
         last = k == len(case["steps"]) - 1
         with np.errstate(all="ignore"):
             # every prefix gets all clauses; intermediate results on a sample of 6 blocks, the final one on (up to 24) all blocks
-            verify(r, what, sig, seed=k, allow_unknown=allow_unknown, max_blocks=24 if last else 6)
+            verify(r, what, sig, seed=k, allow_unknown=allow_unknown, max_blocks=24 if last else 6, deferred=deferred)
+    if deferred:
+        raise deferred[0]
 
 
 def nontrivial(case):
